@@ -85,7 +85,7 @@ add("C07", "E1-envx", "exploration",
 add("C08", "E1-envx", "fault_enumeration",
     "fault enumeration: every NaN/+-inf/huge answer at every evaluation index of every root problem (deviation bound "
     "1, bound 2 on a slice; also with debug=True), region faults, degenerate data, radius underflow, special boxes x "
-    "constraints x callbacks, malformed calls, and the 3-/4-way covering arrays over 25 call features (mc/cover.py)",
+    "constraints x callbacks, malformed calls, and the 3-/4-way covering arrays over 24 call features (mc/cover.py)",
     "Every enumerated faulty execution must return a well-formed OptimizeResult (or raise exactly ValueError/TypeError "
     "for malformed arguments), hand only finite barrier-clipped values to the models and never label a NaN result "
     "successful; hangs are caught by a per-run watchdog.",
